@@ -490,6 +490,10 @@ type Clause struct {
 	Src   string
 	// LogGhost: for a `logs` clause, the ghost that is assigned
 	LogGhost string
+	// Assumed: an `ensures_assumed` clause of a PROVED function - assumed at call sites, NOT
+	// checked against the body (it links the function's result to ghost vocabulary that no
+	// Go code can establish); listed among the assumptions of every check that uses it
+	Assumed bool
 }
 
 type LoopSpec struct {
@@ -707,7 +711,7 @@ func (db *SpecDB) loadSpecFile(path, pkgRel string) error {
 			} else {
 				return fail(i, fmt.Errorf("props outside func"))
 			}
-		case "requires", "ensures":
+		case "requires", "ensures", "ensures_assumed":
 			var props []string
 			if cur != nil {
 				props = cur.Props
@@ -730,6 +734,7 @@ func (db *SpecDB) loadSpecFile(path, pkgRel string) error {
 			if head == "requires" {
 				cur.Requires = append(cur.Requires, c)
 			} else {
+				c.Assumed = head == "ensures_assumed"
 				cur.Ensures = append(cur.Ensures, c)
 			}
 		case "logs":
